@@ -132,6 +132,22 @@ def run(ctx):
             nchunks = 18 if op == "mpwr" else 17
             if int(spec) < nchunks:
                 ctx.violation("Write returned nil although the writer failed", {"case": l, "impl": o})
+    # reading into proof values that were used before (complete reads, reads that failed half-way, other
+    # proofs): the result is a function of the bytes read - one process, values reused across calls
+    hl, hc = [], []
+    seqs = [l for l, c in zip(lines, cls) if l.startswith(("mprd ", "ipard ")) and
+            c.split(":", 1)[1] in ("honest", "short-1", "trailing-1", "read-error", "field-off-curve", "field-valid-other", "length")]
+    rng.shuffle(seqs)
+    for l in seqs[: (120 if ctx.quick() else 3000)]:
+        op, rest = l.split(" ", 1)
+        hl.append(op + "u " + rest)
+        hc.append("used-receiver:" + op)
+    # make sure the pattern 'honest after honest' and 'honest after a failed read' occur
+    for pr2 in proofs[:2]:
+        for pre in (pr2, pr2[:300], proofs[-1]):
+            hl += ["mprdu - " + E.hx(pre), "mprdu - " + E.hx(pr2), "ipardu - " + E.hx(pre[32:]), "ipardu - " + E.hx(pr2[32:])]
+            hc += ["used-receiver:mprd"] * 2 + ["used-receiver:ipard"] * 2
+    diff(ctx, hl, "proof deserialisation into used values (one process)", hc, shards=1, impl_shards=1)
     ctx.extra["accepted_streams"] = acc
 
 
